@@ -308,9 +308,3 @@ func init() {
 	harnessAPI["vContext"] = hContext
 }
 
-// ---------------------------------------------------------------------------------------
-// Scheduler hook (tier 3). nil in single-threaded mode.
-
-type Sched struct {
-	blockOn func(it *Interp, ready func() bool, what string)
-}
